@@ -45,6 +45,7 @@ struct Script {
     int numbers = 0;          // > 0: call SCPI_CommandNumbers with that many slots
     int32_t numDefault = -7;
     std::vector<std::string> isCmdProbes;
+    bool probeSelf = false;   // call SCPI_IsCmd with the effective header the handler sees
 };
 
 struct Cmd {
@@ -358,6 +359,7 @@ inline scpi_result_t Inst::scripted(scpi_t *c) {
         if (!nb.ok()) me->invariant = "SCPI_CommandNumbers wrote past the array";
     }
     for (auto &p : s.isCmdProbes) me->trace.push_back(fmt("I:%d:", (int) SCPI_IsCmd(c, p.c_str())) + p);
+    if (s.probeSelf) me->trace.push_back(fmt("I:%d:", (int) SCPI_IsCmd(c, raw.c_str())) + raw);
     for (auto &r : s.readers) {
         bool ok = runReader(me, c, r);
         if (!ok) {
